@@ -590,7 +590,7 @@ def sym_max(*a, **kw):
     if len(a) == 1:
         a = tuple(a[0])
     if not any(isinstance(x, SInt) for x in a):
-        return builtins.max(*a, **kw)
+        return builtins.max(a, **kw)
     r = a[0]
     for x in a[1:]:
         r = Ite(x > r, x, r) if isinstance(x > r, SBool) else (x if x > r else r)
@@ -601,7 +601,7 @@ def sym_min(*a, **kw):
     if len(a) == 1:
         a = tuple(a[0])
     if not any(isinstance(x, SInt) for x in a):
-        return builtins.min(*a, **kw)
+        return builtins.min(a, **kw)
     r = a[0]
     for x in a[1:]:
         r = Ite(x < r, x, r) if isinstance(x < r, SBool) else (x if x < r else r)
